@@ -445,6 +445,37 @@ def run(ck):
         ok = len(ifs) == 2 and all('SimpleValue::Set' in pp(n['then']) and 'SimpleValue::Enum' in pp(n['els']) for n in ifs)
         ck.ob('R3.8', 'flag-enums-are-sets', ok, L.loc(pa['body']), 'is_flag() ? Set : Enum (%d sites)' % len(ifs))
 
+    # enum values written without their scope: only what stands in front of the FIRST `::` is cut off (the text can be a `|`-joined set,
+    # in which later `::` belong to later members)
+    sep = L.fn('uigen::expr::strip_enum_prefix')
+    if sep is None:
+        ck.floor('R3.8', 0, 1, 'fn strip_enum_prefix')
+    else:
+        ck.analysed(sep['path'])
+        cs = [c for c in H.calls_in(sep['body']) if c.get('k') == 'MCall' and c.get('m') in ('split_once', 'rsplit_once', 'find', 'rfind', 'split', 'rsplit', 'splitn', 'rsplitn', 'split_terminator', 'strip_prefix', 'trim_start_matches', 'rsplit_terminator')]
+        p0 = {b['hid'] for b in H.pat_bindings(sep['params'][0])} if sep.get('params') else set()
+        ok = False
+        why = 'splitting calls: %s' % [c['m'] for c in cs]
+        if len(cs) == 1 and cs[0]['m'] == 'split_once' and H.lit_value(cs[0]['args'][0]) == '::' and (H.root_local(cs[0]['recv']) or {}).get('hid') in p0:
+            # .map(|(_, t)| t).unwrap_or(s)
+            vals = [H.strip_refs(v) for v in H.return_exprs(sep['body'])]
+            v = vals[0] if len(vals) == 1 else {}
+            dflt = v.get('k') == 'MCall' and v.get('m') == 'unwrap_or' and (H.root_local(v['args'][0]) or {}).get('hid') in p0 and H.strip_refs(v['args'][0]).get('k') == 'Path'
+            mp = H.strip_refs(v['recv']) if dflt else {}
+            second = False
+            if mp.get('k') == 'MCall' and mp.get('m') == 'map' and mp['args'] and mp['args'][0].get('k') == 'Closure' and H.strip_refs(mp['recv']) is cs[0]:
+                cl = mp['args'][0]
+                pt = cl['params'][0]
+                while pt.get('k') in ('PRef', 'PDeref'):
+                    pt = pt['p']
+                rv = [H.strip_refs(x) for x in H.return_exprs(cl['body'])]
+                if pt.get('k') == 'PTup' and len(pt['subs']) == 2 and len(rv) == 1 and rv[0].get('k') == 'Path':
+                    second = rv[0].get('hid') in {b['hid'] for b in H.pat_bindings(pt['subs'][1])}
+            ok = dflt and second
+            why = 's.split_once("::") -> the part behind it, else s' if ok else 'split_once("::") is not followed by .map(|(_, rest)| rest).unwrap_or(s)'
+        ck.ob('R3.8', 'enum-scope-cut-at-first-separator', ok, L.loc(sep['body']),
+              why if ok else 'strip_enum_prefix does not cut exactly at the first `::` (%s): of an enum set `A::x|A::y` everything but the last member is dropped (or nothing is cut)' % why, fn=sep['path'])
+
     # ---- R3.9 the text that reaches the .ui is escaped, not pasted (shared with C09 R9.1) ------------------------------------
     import rules.c09 as c09
     sh = _core.Shared(ck, 'R3.9', lambda r, k: (r == 'R9.1' and any(k.startswith(p) for p in ('write_tagged_str|', 'SimpleValue::serialize_to_xml_as|', 'serialize_string_list_to_xml|'))) or r == 'R9.2t', 'C09:',
